@@ -1,5 +1,471 @@
 /-
-C08 — property theorems (stub; nothing proved yet).
+C08 — size-class grid operations stay consistent and conserve particle volume.
+Property theorems about `KawinV.Grid` (hand model of the grid operations of
+PopulationBalance.py, tied to the source by tools/corr/C08.py).  α is any linearly ordered field.
 -/
+import KawinV.Model.PBMGrid
+import Mathlib.Tactic.Ring
+import Mathlib.Tactic.Linarith
+import Mathlib.Tactic.FieldSimp
+import Mathlib.Tactic.NormNum
+import Mathlib.Algebra.Order.Field.Basic
+import Mathlib.Algebra.Order.Field.Rat
+
+set_option linter.unusedSectionVars false
+set_option linter.unusedVariables false
+set_option linter.unusedSimpArgs false
+
 namespace KawinV.Props.C08
+open KawinV KawinV.Grid KawinV.PBM
+
+variable {α : Type} [Field α] [LinearOrder α] [IsStrictOrderedRing α]
+
+/-! ### linspace -/
+
+/-- closed form of boundary i of `linspace mn mx n` -/
+def lin (mn mx : α) (n i : Nat) : α := mn + (i : α) * ((mx - mn) / (n : α))
+
+theorem linspace_length (mn mx : α) (n : Nat) : (linspace mn mx n).length = n + 1 := by
+  simp [linspace]
+
+theorem linspace_getElem? (mn mx : α) (n i : Nat) (hn : 1 ≤ n) (hi : i ≤ n) :
+    (linspace mn mx n)[i]? = some (lin mn mx n i) := by
+  have hn0 : (n : α) ≠ 0 := by exact_mod_cast (by omega : n ≠ 0)
+  simp only [linspace, List.getElem?_map, List.getElem?_range (by omega : i < n + 1), Option.map_some, lin]
+  congr 1
+  by_cases h : i = n
+  · subst h
+    simp only [if_true, show ¬ (i = 0) by omega, if_false]
+    field_simp; ring
+  · simp only [h, if_false]; ring
+
+theorem lin_lt (mn mx : α) (n i j : Nat) (hn : 1 ≤ n) (h : mn < mx) (hij : i < j) :
+    lin mn mx n i < lin mn mx n j := by
+  have hn0 : (0 : α) < (n : α) := by exact_mod_cast hn
+  have hs : 0 < (mx - mn) / (n : α) := div_pos (sub_pos.mpr h) hn0
+  have : (i : α) < (j : α) := by exact_mod_cast hij
+  unfold lin
+  nlinarith
+
+theorem lin_zero (mn mx : α) (n : Nat) : lin mn mx n 0 = mn := by simp [lin]
+
+theorem lin_last (mn mx : α) (n : Nat) (hn : 1 ≤ n) : lin mn mx n n = mx := by
+  have hn0 : (n : α) ≠ 0 := by exact_mod_cast (by omega : n ≠ 0)
+  unfold lin; field_simp; ring
+
+theorem linspace_head? (mn mx : α) (n : Nat) : (linspace mn mx n).head? = some mn := by
+  simp only [linspace, List.range_succ_eq_map, List.map_cons, List.head?_cons]
+  by_cases h : 0 = n
+  · subst h; simp
+  · simp [h]
+
+theorem linspace_getLast? (mn mx : α) (n : Nat) (hn : 1 ≤ n) : (linspace mn mx n).getLast? = some mx := by
+  simp [linspace, List.range_succ, show n ≠ 0 by omega]
+
+/-! ### elementwise helpers -/
+
+theorem forall_mem_zipWith {β γ δ : Type} (f : β → γ → δ) (P : β → Prop) (Q : γ → Prop) (R : δ → Prop)
+    (hf : ∀ a b, P a → Q b → R (f a b)) :
+    ∀ (l1 : List β) (l2 : List γ), (∀ a ∈ l1, P a) → (∀ b ∈ l2, Q b) → ∀ c ∈ List.zipWith f l1 l2, R c := by
+  intro l1
+  induction l1 with
+  | nil => intro l2 _ _ c hc; simp at hc
+  | cons a as ih =>
+    intro l2 h1 h2 c hc
+    cases l2 with
+    | nil => simp at hc
+    | cons b bs =>
+      simp only [List.zipWith_cons_cons, List.mem_cons] at hc
+      rcases hc with rfl | hc
+      · exact hf a b (h1 a (by simp)) (h2 b (by simp))
+      · exact ih bs (fun x hx => h1 x (by simp [hx])) (fun x hx => h2 x (by simp [hx])) c hc
+
+theorem midpoints_length (b : List α) : (midpoints b).length = b.length - 1 := by
+  simp [midpoints]
+
+theorem widths_length (b : List α) : (widths b).length = b.length - 1 := by
+  simp [widths]
+
+theorem midpoints_getElem? (b : List α) (i : Nat) (x y : α) (hx : b[i]? = some x) (hy : b[i+1]? = some y) :
+    (midpoints b)[i]? = some ((x + y) / 2) := by
+  simp [midpoints, List.getElem?_zipWith, hx, hy]
+
+theorem widths_getElem? (b : List α) (i : Nat) (x y : α) (hx : b[i]? = some x) (hy : b[i+1]? = some y) :
+    (widths b)[i]? = some (y - x) := by
+  simp [widths, List.getElem?_zipWith, hx, hy]
+
+/-- centres of a linspace grid -/
+theorem midpoints_linspace_getElem? (mn mx : α) (n i : Nat) (hn : 1 ≤ n) (hi : i < n) :
+    (midpoints (linspace mn mx n))[i]? = some ((lin mn mx n i + lin mn mx n (i+1)) / 2) :=
+  midpoints_getElem? _ i _ _ (linspace_getElem? mn mx n i hn (by omega)) (linspace_getElem? mn mx n (i+1) hn (by omega))
+
+theorem widths_linspace_nonneg (mn mx : α) (n : Nat) (hn : 1 ≤ n) (h : mn < mx) :
+    ∀ w ∈ widths (linspace mn mx n), 0 < w := by
+  intro w hw
+  obtain ⟨i, hi, rfl⟩ := List.mem_iff_getElem.mp hw
+  have hlen : i < n := by
+    have := widths_length (linspace mn mx n); rw [linspace_length] at this; omega
+  have := widths_getElem? (linspace mn mx n) i _ _ (linspace_getElem? mn mx n i hn (by omega))
+    (linspace_getElem? mn mx n (i+1) hn (by omega))
+  rw [List.getElem?_eq_getElem hi] at this
+  rw [Option.some.inj this]
+  exact sub_pos.mpr (lin_lt mn mx n i (i+1) hn h (by omega))
+
+/-! ### interpolation -/
+
+theorem interpAux_nonneg : ∀ (xp fp : List α) (x : α), (∀ y ∈ fp, 0 ≤ y) →
+    (∀ x0, xp.head? = some x0 → x0 ≤ x) → 0 ≤ interpAux xp fp x := by
+  intro xp
+  induction xp with
+  | nil =>
+    intro fp x hf _
+    cases fp with
+    | nil => simp [interpAux]
+    | cons f0 fs => simp only [interpAux]; exact hf f0 (by simp)
+  | cons x0 xs ih =>
+    intro fp x hf hx
+    cases fp with
+    | nil => simp [interpAux]
+    | cons f0 fs =>
+      cases xs with
+      | nil => simp only [interpAux]; exact hf f0 (by simp)
+      | cons x1 xs' =>
+        cases fs with
+        | nil => simp only [interpAux]; exact hf f0 (by simp)
+        | cons f1 fs' =>
+          simp only [interpAux]
+          have h0 : 0 ≤ f0 := hf f0 (by simp)
+          have h1 : 0 ≤ f1 := hf f1 (by simp)
+          have hx0 : x0 ≤ x := hx x0 rfl
+          split
+          · next hlt =>
+            have hd : 0 < x1 - x0 := by linarith
+            have : (f1 - f0) / (x1 - x0) * (x - x0) + f0 = (f1 * (x - x0) + f0 * (x1 - x)) / (x1 - x0) := by
+              field_simp; ring
+            rw [this]
+            apply div_nonneg _ hd.le
+            have : 0 ≤ x - x0 := by linarith
+            have : 0 ≤ x1 - x := by linarith
+            positivity
+          · next hge =>
+            apply ih (f1 :: fs') x (fun y hy => hf y (by simp [List.mem_cons] at hy ⊢; tauto))
+            intro y hy
+            simp at hy; subst hy
+            exact not_lt.mp hge
+
+/-- interpolating non-negative ordinates gives a non-negative value, whatever the abscissae -/
+theorem interp_nonneg (xp fp : List α) (x : α) (hf : ∀ y ∈ fp, 0 ≤ y) : 0 ≤ interp xp fp x := by
+  unfold interp
+  split
+  · next x0 _ f0 _ =>
+    split
+    · exact hf f0 (by simp)
+    · next h =>
+      apply interpAux_nonneg _ _ _ hf
+      intro y hy; simp at hy; subst hy; exact not_lt.mp h
+  · exact le_refl _
+
+/-! ### moments -/
+
+theorem npow_eq_pow (x : α) (k : Nat) : npow x k = x ^ k := by
+  induction k with
+  | zero => simp [npow]
+  | succ k ih =>
+    cases k with
+    | zero => simp [npow]
+    | succ k =>
+      have : npow x (k+1+1) = npow x (k+1) * x := rfl
+      rw [this, ih]; ring
+
+theorem moment_nil_left (size : List α) (k : Nat) : moment ([] : List α) size k = 0 := by simp [moment]
+
+theorem moment_cons (n : α) (N : List α) (r : α) (size : List α) (k : Nat) :
+    moment (n :: N) (r :: size) k = n * r ^ k + moment N size k := by
+  simp [moment, npow_eq_pow]
+
+/-- scaling every population scales the moment -/
+theorem moment_map_mul (c : α) (k : Nat) : ∀ (N size : List α),
+    moment (N.map (fun x => x * c)) size k = c * moment N size k := by
+  intro N
+  induction N with
+  | nil => intro size; simp [moment]
+  | cons n N ih =>
+    intro size
+    cases size with
+    | nil => simp [moment]
+    | cons r size =>
+      rw [List.map_cons, moment_cons, moment_cons, ih]; ring
+
+theorem moment_zeros (m k : Nat) : ∀ (size : List α), moment (zeros m : List α) size k = 0 := by
+  induction m with
+  | zero => intro size; simp [moment, zeros]
+  | succ m ih =>
+    intro size
+    cases size with
+    | nil => simp [moment]
+    | cons r size =>
+      have : (zeros (m+1) : List α) = 0 :: zeros m := by simp [zeros, List.replicate_succ]
+      rw [this, moment_cons, ih]; simp
+
+/-- appending empty classes does not change a moment as long as the old centres stay where they were -/
+theorem moment_append_zeros (k m : Nat) : ∀ (N size rest : List α), N.length = size.length →
+    moment (N ++ zeros m) (size ++ rest) k = moment N size k := by
+  intro N
+  induction N with
+  | nil =>
+    intro size rest h
+    have : size = [] := by cases size <;> simp_all
+    subst this; simp [moment_zeros, moment_nil_left]
+  | cons n N ih =>
+    intro size rest h
+    cases size with
+    | nil => simp at h
+    | cons r size =>
+      simp only [List.cons_append, moment_cons]
+      rw [ih size rest (by simpa using h)]
+
+theorem moment_nonneg (k : Nat) : ∀ (N size : List α), (∀ x ∈ N, 0 ≤ x) → (∀ r ∈ size, 0 ≤ r) →
+    0 ≤ moment N size k := by
+  intro N
+  induction N with
+  | nil => intro size _ _; simp [moment]
+  | cons n N ih =>
+    intro size hN hs
+    cases size with
+    | nil => simp [moment]
+    | cons r size =>
+      rw [moment_cons]
+      have := ih size (fun x hx => hN x (by simp [hx])) (fun x hx => hs x (by simp [hx]))
+      have h1 : 0 ≤ n := hN n (by simp)
+      have h2 : 0 ≤ r := hs r (by simp)
+      positivity
+
+/-! ### the consistency invariant -/
+
+/-- a consistent grid: `n ≥ 1` classes on `[mn, mx]`, `0 ≤ mn < mx`, boundaries = linspace,
+one non-negative population per class -/
+structure GridOK (mn mx : α) (n : Nat) (bounds psd : List α) : Prop where
+  bins_pos : 1 ≤ n
+  min_nonneg : 0 ≤ mn
+  lt : mn < mx
+  bounds_eq : bounds = linspace mn mx n
+  psd_len : psd.length = n
+  psd_nonneg : ∀ x ∈ psd, 0 ≤ x
+
+/-- **Inv**: the current grid is consistent, centres are midpoints, the original grid description
+is usable (so that `reset` works) and the backup is itself a consistent grid (so that `revert`
+works at any time). -/
+structure Inv (s : State α) : Prop where
+  grid : GridOK s.min s.max s.bins s.bounds s.psd
+  size_eq : s.size = midpoints s.bounds
+  orig_bins : 1 ≤ s.origBins
+  orig_nonneg : 0 ≤ s.origMin
+  orig_lt : s.origMin < s.origMax
+  backup : ∃ mn mx n, GridOK mn mx n s.prevBounds s.prevPsd
+
+theorem zeros_nonneg (n : Nat) : ∀ x ∈ (zeros n : List α), 0 ≤ x := by
+  intro x hx; simp [zeros] at hx; rw [hx.2]
+
+theorem zeros_length (n : Nat) : (zeros n : List α).length = n := by simp [zeros]
+
+theorem linspace_mem_ge (mn mx : α) (n : Nat) (hn : 1 ≤ n) (h : mn < mx) :
+    ∀ b ∈ linspace mn mx n, mn ≤ b := by
+  intro b hb
+  obtain ⟨i, hi, rfl⟩ := List.mem_iff_getElem.mp hb
+  rw [linspace_length] at hi
+  have := linspace_getElem? mn mx n i hn (by omega)
+  rw [List.getElem?_eq_getElem (by rw [linspace_length]; exact hi)] at this
+  rw [Option.some.inj this]
+  rcases Nat.eq_zero_or_pos i with h0 | h0
+  · subst h0; rw [lin_zero]
+  · have := lin_lt mn mx n 0 i hn h h0
+    rw [lin_zero] at this; exact le_of_lt this
+
+theorem midpoints_linspace_nonneg (mn mx : α) (n : Nat) (hn : 1 ≤ n) (h0 : 0 ≤ mn) (h : mn < mx) :
+    ∀ r ∈ midpoints (linspace mn mx n), 0 ≤ r := by
+  unfold midpoints
+  apply forall_mem_zipWith _ (fun a => 0 ≤ a) (fun a => 0 ≤ a) (fun a => 0 ≤ a)
+  · intro a b ha hb; simp only [Nat.cast_ofNat]; positivity
+  · intro a ha; exact le_trans h0 (linspace_mem_ge mn mx n hn h a ha)
+  · intro a ha; exact le_trans h0 (linspace_mem_ge mn mx n hn h a (List.mem_of_mem_tail ha))
+
+/-- **what Inv says in observable terms**: class count ≥ 1, array lengths match, boundaries run
+from `min` to `max` strictly increasing, centres are midpoints, populations are non-negative. -/
+theorem inv_spec (s : State α) (h : Inv s) :
+    1 ≤ s.bins ∧ s.psd.length = s.bins ∧ s.bounds.length = s.bins + 1 ∧ s.size.length = s.bins ∧
+    s.bounds.head? = some s.min ∧ s.bounds.getLast? = some s.max ∧
+    (∀ (i j : Nat) (x y : α), i < j → s.bounds[i]? = some x → s.bounds[j]? = some y → x < y) ∧
+    (∀ (i : Nat) (x y : α), s.bounds[i]? = some x → s.bounds[i+1]? = some y → s.size[i]? = some ((x + y) / 2)) ∧
+    (∀ x ∈ s.psd, 0 ≤ x) := by
+  obtain ⟨⟨hn, h0, hlt, hb, hl, hp⟩, hs, _, _, _, _⟩ := h
+  have hbl : s.bounds.length = s.bins + 1 := by rw [hb, linspace_length]
+  refine ⟨hn, hl, hbl, ?_, ?_, ?_, ?_, ?_, hp⟩
+  · rw [hs, midpoints_length, hbl]; omega
+  · rw [hb, linspace_head?]
+  · rw [hb, linspace_getLast? _ _ _ hn]
+  · intro i j x y hij hx hy
+    have hj : j ≤ s.bins := by
+      have := (List.getElem?_eq_some_iff.mp hy).1; omega
+    rw [hb, linspace_getElem? _ _ _ _ hn (by omega)] at hx
+    rw [hb, linspace_getElem? _ _ _ _ hn hj] at hy
+    rw [← Option.some.inj hx, ← Option.some.inj hy]
+    exact lin_lt _ _ _ _ _ hn hlt hij
+  · intro i x y hx hy
+    rw [hs]; exact midpoints_getElem? _ _ _ _ hx hy
+
+/-! ### reset, constructor -/
+
+theorem gridOK_fresh (mn mx : α) (n : Nat) (hn : 1 ≤ n) (h0 : 0 ≤ mn) (h : mn < mx) :
+    GridOK mn mx n (linspace mn mx n) (zeros n) :=
+  ⟨hn, h0, h, rfl, zeros_length n, zeros_nonneg n⟩
+
+theorem reset_true_inv (s : State α) (hn : 1 ≤ s.origBins) (h0 : 0 ≤ s.origMin) (h : s.origMin < s.origMax) :
+    Inv (reset s true) := by
+  refine ⟨?_, ?_, ?_, ?_, ?_, ?_⟩ <;> simp only [reset, if_true]
+  · exact gridOK_fresh _ _ _ hn h0 h
+  · exact hn
+  · exact h0
+  · exact h
+  · exact ⟨_, _, _, gridOK_fresh _ _ _ hn h0 h⟩
+
+theorem reset_false_inv (s : State α) (hb : 1 ≤ s.bins) (hm : 0 ≤ s.min) (hlt : s.min < s.max)
+    (hn : 1 ≤ s.origBins) (h0 : 0 ≤ s.origMin) (h : s.origMin < s.origMax) :
+    Inv (reset s false) := by
+  refine ⟨?_, ?_, ?_, ?_, ?_, ?_⟩ <;> simp only [reset, Bool.false_eq_true, if_false]
+  · exact gridOK_fresh _ _ _ hb hm hlt
+  · exact hn
+  · exact h0
+  · exact h
+  · exact ⟨_, _, _, gridOK_fresh _ _ _ hb hm hlt⟩
+
+/-- **reset**: `reset(True)` restores the original grid description, the boundaries are the
+original linspace and the distribution is empty. -/
+theorem reset_restores (s : State α) :
+    (reset s true).min = s.origMin ∧ (reset s true).max = s.origMax ∧ (reset s true).bins = s.origBins ∧
+    (reset s true).bounds = linspace s.origMin s.origMax s.origBins ∧
+    (reset s true).psd = zeros s.origBins ∧ (∀ x ∈ (reset s true).psd, x = 0) := by
+  refine ⟨rfl, rfl, rfl, rfl, rfl, ?_⟩
+  intro x hx; simp [reset, zeros] at hx; exact hx.2
+
+theorem lt_amax2 (a b c : α) (h : c < a ∨ c < b) : c < amax2 a b := by
+  unfold amax2; split <;> rcases h with h | h <;> linarith
+
+/-- **Inv holds initially** for every constructor call with at least one class, a non-negative
+lower bound and a non-degenerate range -/
+theorem inv_init (cMin cMax : α) (bins minBins maxBins : Nat) (hb : 1 ≤ bins) (h0 : 0 ≤ cMin)
+    (h : cMin < amax2 (10 * cMin) cMax) : Inv (init cMin cMax bins minBins maxBins) := by
+  unfold init
+  apply reset_true_inv
+  · exact hb
+  · exact h0
+  · simpa using h
+
+theorem pre_of_pos (cMin cMax : α) (h : 0 < cMin) : cMin < amax2 (10 * cMin) cMax :=
+  lt_amax2 _ _ _ (Or.inl (by linarith))
+theorem pre_of_lt (cMin cMax : α) (h : cMin < cMax) : cMin < amax2 (10 * cMin) cMax :=
+  lt_amax2 _ _ _ (Or.inr h)
+
+/-! ### extend (addSizeClasses) -/
+
+/-- class width of a consistent grid -/
+def stepOf (s : State α) : α := (s.max - s.min) / (s.bins : α)
+
+/-- on a consistent grid `addSizeClasses(k)` never raises and has this closed form: the upper end
+moves by k class widths -/
+theorem add_eq (s : State α) (k : Nat) (h : Inv s) :
+    add s k = some { s with bins := s.bins + k, psd := s.psd ++ zeros k, max := s.max + (k : α) * stepOf s,
+                            bounds := linspace s.min (s.max + (k : α) * stepOf s) (s.bins + k),
+                            size := midpoints (linspace s.min (s.max + (k : α) * stepOf s) (s.bins + k)) } := by
+  obtain ⟨⟨hn, _, hlt, hb, _, _⟩, _, _, _, _, _⟩ := h
+  have h0 := linspace_getElem? s.min s.max s.bins 0 hn (by omega)
+  have h1 := linspace_getElem? s.min s.max s.bins 1 hn hn
+  rw [← hb] at h0 h1
+  rcases hbb : s.bounds with _ | ⟨b0, _ | ⟨b1, rest⟩⟩
+  · rw [hbb] at h0; simp at h0
+  · rw [hbb] at h1; simp at h1
+  · rw [hbb] at h0 h1
+    simp only [List.getElem?_cons_zero, List.getElem?_cons_succ, Option.some.injEq] at h0 h1
+    have hstep : b1 - b0 = stepOf s := by
+      rw [h0, h1]; simp [lin, stepOf]
+    simp only [add, hbb, hstep]
+
+/-- **Inv is preserved by extension** (no precondition) -/
+theorem add_inv (s s' : State α) (k : Nat) (h : Inv s) (hs : add s k = some s') : Inv s' := by
+  rw [add_eq s k h] at hs
+  have hs' := Option.some.inj hs
+  subst hs'
+  obtain ⟨⟨hn, h0, hlt, hb, hl, hp⟩, hsz, ho1, ho2, ho3, hbk⟩ := h
+  have hstep : 0 ≤ (k : α) * stepOf s := by
+    have : (0 : α) < (s.bins : α) := by exact_mod_cast hn
+    have : 0 < stepOf s := div_pos (sub_pos.mpr hlt) this
+    positivity
+  refine ⟨⟨by simp only; omega, h0, by simp only; linarith, rfl, by simp [hl, zeros], ?_⟩, rfl, ho1, ho2, ho3, hbk⟩
+  intro x hx
+  simp only [List.mem_append] at hx
+  rcases hx with hx | hx
+  · exact hp x hx
+  · exact zeros_nonneg k x hx
+
+/-- boundary i of the extended grid coincides with boundary i of the old grid -/
+theorem lin_extend (mn mx : α) (n k i : Nat) (hn : 1 ≤ n) :
+    lin mn (mx + (k : α) * ((mx - mn) / (n : α))) (n + k) i = lin mn mx n i := by
+  have hn0 : (n : α) ≠ 0 := by exact_mod_cast (by omega : n ≠ 0)
+  have hnk : ((n + k : Nat) : α) ≠ 0 := by exact_mod_cast (by omega : n + k ≠ 0)
+  unfold lin
+  congr 1
+  have : (mx + (k : α) * ((mx - mn) / (n : α)) - mn) / ((n + k : Nat) : α) = (mx - mn) / (n : α) := by
+    push_cast at hnk ⊢
+    field_simp; ring
+  rw [this]
+
+/-- **extend, boundaries**: every existing class boundary (indices 0..bins) is untouched -/
+theorem add_bounds_untouched (s s' : State α) (k i : Nat) (h : Inv s) (hs : add s k = some s')
+    (hi : i ≤ s.bins) : s'.bounds[i]? = s.bounds[i]? := by
+  rw [add_eq s k h] at hs
+  have hs' := Option.some.inj hs
+  subst hs'
+  have hn := h.grid.bins_pos
+  simp only
+  rw [h.grid.bounds_eq, linspace_getElem? _ _ _ _ hn hi, linspace_getElem? _ _ _ _ (by omega) (by omega)]
+  rw [stepOf, lin_extend _ _ _ _ _ hn]
+
+/-- **extend, populations**: existing populations are untouched, the new classes are empty -/
+theorem add_psd (s s' : State α) (k : Nat) (h : Inv s) (hs : add s k = some s') :
+    s'.psd = s.psd ++ zeros k ∧ s'.bins = s.bins + k := by
+  rw [add_eq s k h] at hs
+  have hs' := Option.some.inj hs
+  subst hs'; exact ⟨rfl, rfl⟩
+
+/-- **extend, centres**: the centres of the existing classes are untouched -/
+theorem add_size_prefix (s s' : State α) (k : Nat) (h : Inv s) (hs : add s k = some s') :
+    ∃ rest, s'.size = s.size ++ rest := by
+  have hinv' := add_inv s s' k h hs
+  have hb := fun i hi => add_bounds_untouched s s' k i h hs hi
+  obtain ⟨hn, hpl, hbl, hsl, -, -, -, hmid, -⟩ := inv_spec s h
+  obtain ⟨hn', hpl', hbl', hsl', -, -, -, hmid', -⟩ := inv_spec s' hinv'
+  have hbins : s'.bins = s.bins + k := (add_psd s s' k h hs).2
+  refine ⟨s'.size.drop s.bins, ?_⟩
+  have htake : s'.size.take s.bins = s.size := by
+    apply List.ext_getElem?
+    intro i
+    by_cases hi : i < s.bins
+    · rw [List.getElem?_take_of_lt hi]
+      have hx : s.bounds[i]? = some (s.bounds[i]'(by omega)) := List.getElem?_eq_getElem _
+      have hy : s.bounds[i+1]? = some (s.bounds[i+1]'(by omega)) := List.getElem?_eq_getElem _
+      rw [hmid i _ _ hx hy]
+      rw [← hb i (by omega)] at hx
+      rw [← hb (i+1) (by omega)] at hy
+      exact hmid' i _ _ hx hy
+    · rw [List.getElem?_eq_none (by omega)]
+      rw [List.getElem?_eq_none]; simp; omega
+  rw [← htake, List.take_append_drop]
+
+/-- **extend, moments**: every moment (in particular M0, M1, M3) of the distribution is unchanged -/
+theorem add_moment (s s' : State α) (k j : Nat) (h : Inv s) (hs : add s k = some s') :
+    moment s'.psd s'.size j = moment s.psd s.size j := by
+  obtain ⟨rest, hr⟩ := add_size_prefix s s' k h hs
+  obtain ⟨hn, hpl, hbl, hsl, -⟩ := inv_spec s h
+  rw [(add_psd s s' k h hs).1, hr]
+  exact moment_append_zeros j k _ _ _ (by omega)
+
 end KawinV.Props.C08
